@@ -1230,9 +1230,12 @@ impl ArrayData {
                     ))
                 })?;
 
-                let expected_values_len = self.len
-                    .checked_mul(list_size)
-                    .expect("integer overflow computing expected number of expected values in FixedListSize");
+                let expected_values_len = self.len.checked_mul(list_size).ok_or_else(|| {
+                    ArrowError::InvalidArgumentError(format!(
+                        "Length {} multiplied by the value size ({}) overflows for {}",
+                        self.len, list_size, self.data_type
+                    ))
+                })?;
 
                 if values_data.len < expected_values_len {
                     return Err(ArrowError::InvalidArgumentError(format!(
